@@ -99,6 +99,7 @@ pub fn hx_cfg_from_json(v: &Value) -> HxCfg {
     c.next_id = o["next_id"].as_bool().unwrap_or(true);
     c.add_next = o["add_next"].as_bool().unwrap_or(true);
     c.clone_swap = o["clone_swap"].as_bool().unwrap_or(false);
+    c.clone_from_swap = o["clone_from_swap"].as_bool().unwrap_or(false);
     c.reload_swap = o["reload_swap"].as_bool().unwrap_or(false);
     c.merges = serde_json::from_value(o["merges"].clone()).unwrap_or_default();
     c.merge_fails = serde_json::from_value(o["merge_fails"].clone()).unwrap_or_default();
@@ -108,6 +109,22 @@ pub fn hx_cfg_from_json(v: &Value) -> HxCfg {
 
 /// `vx replay <file>`: exit 1 if the recorded failure reproduces, 0 if not.
 pub fn replay_file(path: &str) -> i32 {
+    let rc = replay_file_once(path);
+    if rc != 0 {
+        return rc;
+    }
+    // some cases are run right after calls that fail on unrelated objects (harness/src/dirty.rs):
+    // a failure that needs that to show (hidden state in the thread or the process) reproduces now
+    println!("(once more, this time right after failing calls on unrelated graphs and values in the same thread)");
+    crate::dirty::failing_calls();
+    let rc = replay_file_once(path);
+    if rc == 1 {
+        println!("NOTE: the failure shows only when failing calls on UNRELATED objects came before it in the same thread: some state outside the graph survives a failed call");
+    }
+    rc
+}
+
+fn replay_file_once(path: &str) -> i32 {
     let txt = match std::fs::read_to_string(path) {
         Ok(t) => t,
         Err(e) => {
